@@ -33,7 +33,7 @@ func init() {
 			"decreases and never exceeds what was applied; the replica state after each message is a prefix state. (b) 15%: entry serialisation and every compression codec round-trip on " +
 			"generated entries (empty values, 0x00 keys, 1MB values). (c) 15%: a real Replica with a recording applier against a scripted fake primary (real gRPC on loopback) that splits, " +
 			"duplicates, overlaps, jumps ahead and resets streams at PRNG points; same oracle, completion required within 60s. " +
-			"distinct = hash(history shape, schedule); non-trivial = >= 1 hostile message (duplicate/overlap/gap/reset) was delivered and the history held >= 1 transaction",
+			"Hostile classes also include messages with an interior hole (a unit missing behind the first entry); every 8th applier case injects one or two transient apply errors of the replica's store. distinct = hash(history shape, schedule); non-trivial = >= 1 hostile message (duplicate/overlap/gap/reset) was delivered and the history held >= 1 transaction",
 		Assumptions: []string{"messages are cut at unit boundaries (a transaction is one log unit); splits inside a transaction are generated as a separate schedule class",
 			"apply errors on the replica are not injected (not in the statement's list of perturbations)"},
 		NumCases: func(tier string) int {
